@@ -17,6 +17,15 @@ def run(ck, rng):
     n = 450 if ck.tier == "quick" else 12000
     for _ in range(n):
         items = gen_fs_forest(rng)
+        if rng.random() < 0.12:
+            # many roots (thresholds at which an implementation may switch from one Stat per root to listing the
+            # target once), some childless with an extension, some with children
+            items = []
+            for r_ in range(rng.choice([15, 16, 17, 18, 20, 33])):
+                nm = b"root%02d" % r_ + rng.choice([b"", b"", b".go", b".md"])
+                items.append((1, nm))
+                if not nm.endswith((b".go", b".md")) and rng.random() < 0.6:
+                    items += [(2, b"k"), (2, b"f.go")]
         flat = flat_merged(items)
         exts = rng.choice(EXT_LISTS)
         target = rng.choice(TARGETS)
